@@ -789,9 +789,13 @@ def run_own_tables(shard, ctx):
                     else:
                         # (the value stays the standard one: the CDB length follows from the operation code's group, another
                         # value is another command)
-                        tbl.add(key, OpCode(key, value_now, sa) if rng.random() < 0.7 else orig)
+                        if rng.random() < 0.3:
+                            setattr(tbl, key, OpCode(key, value_now, sa))  # an entry put there by plain attribute assignment
+                            hist.append("setattr:%02X" % value_now)
+                        else:
+                            tbl.add(key, OpCode(key, value_now, sa) if rng.random() < 0.7 else orig)
+                            hist.append("add:%02X" % value_now)
                         present = True
-                        hist.append("add:%02X" % value_now)
                 ctx.count("own_table_histories")
             # a table for a unit with a quirk (the entry carries another code of the same group and shifted service actions), used,
             # dropped and collected; then a table with the standard entries, most likely at the address the dead one had: the
@@ -920,6 +924,15 @@ def _run_transport(shard, ctx, rng, sg, isc, skew):
                         idle = rng.choice([31, 61, 301, 3601, 90000])
                         skew[0] += idle
                         ctx.count("calls_after_idle_time")
+                    if rng.random() < 0.15:
+                        # another, short-lived facade on the same device (a helper function built one and let it go): the device is
+                        # the caller's and stays open
+                        import gc
+
+                        tmp = harness.make_facade(dev)
+                        del tmp
+                        gc.collect()
+                        ctx.count("short_lived_facades_on_the_same_device")
                     mod.log = []
                     label = c.facade + (":%d" % c.facade_fixed["service_action"] if c.facade_fixed else "")
                     wit = {"method": label, "transport": t, "table": setname, "node_replaced_before_call": replugged, "idle_seconds_before_call": idle, "args": a}
@@ -937,6 +950,9 @@ def _run_transport(shard, ctx, rng, sg, isc, skew):
                                  % (c.facade, t, " right after the node was replaced" if replugged else "", len(mod.log)), wit)
                         continue
                     ev = mod.log[0]
+                    if ev.get("file_closed") or ev.get("connected") is False:
+                        ctx.fail("C13:%s.transport.%s.sent_on_released_handle" % (c.facade, t), "the command went to a handle that had been released (%s) although the caller never closed the device"
+                                 % ("closed file" if t == "sgio" else "disconnected session"), wit)
                     if t == "iscsi" and ev.get("lun") != 0:
                         ctx.fail("C13:%s.transport.iscsi.sent_to_other_logical_unit" % c.facade, "the command of the device opened on LUN 0 was addressed to LUN %r (other devices of the process are open on LUNs 5 and 300)" % ev.get("lun"), wit)
                     if t == "sgio" and not ev.get("file_closed") and ev.get("ino") != os.stat(node).st_ino:
